@@ -8,7 +8,7 @@ use rand::Rng;
 
 use crate::prelude::{NoopNotifier, ObservationBuilder, TrackStoreBuilder};
 use crate::store::TrackStore;
-use crate::track::Track;
+use crate::track::{Track, TrackStatus};
 use crate::trackers::epoch_db::EpochDb;
 use crate::trackers::sort::{
     metric::SortMetric, voting::SortVoting, AutoWaste, PositionalMetricType, SortAttributes,
@@ -208,6 +208,8 @@ impl Sort {
         store
             .lookup(SortLookup::IdleLookup(scene_id))
             .iter()
+            // an expired track that the periodic collection has not moved yet is not idle
+            .filter(|(_track_id, status)| !matches!(status, Ok(TrackStatus::Wasted)))
             .map(|(track_id, _status)| {
                 let shard = store.get_store(*track_id as usize);
                 let track = shard.get(track_id).unwrap();
